@@ -1,13 +1,1172 @@
-//! C08 — (not built yet)
-#![allow(unused_imports, unused_variables, dead_code)]
+//! C08 — streaming binary reader equals the slice lexer; token encoding round-trips.
+//! Also the binary byte→token clauses of C09 (skip), C19 (prefixes) and C20 (read faults);
+//! their generators are exported separately (`gen_skip`, `gen_cut`, `gen_fault`).
+//!
+//! ops (all answered by the Lean model as well, see lean/JominiModel/Driver/C08.lean):
+//!   blex <hex> | blexid <hex> | bpeek <hex> | bcut <hex> <k> | bwrite <toks>
+//!   bstream <cap> <sched> <hex> | bread <cap> <sched> <hex> | bcalls <cap> <sched> <hex> <n>
+//!   breadbytes <cap> <sched> <hex> <n,n,..>
+//!   bskip <cap> <sched> <hex> <k> | blexskip <hex> <k> | blexskipv <hex> <k>
+//!   bufops <cap> <sched> <hex> <ops>
+//! <cap> = n (fresh buffer) | r<n> (recycled buffer full of 0xaa) | S (from_slice)
+#![allow(dead_code)]
 use crate::common::*;
+use crate::docgen::{self, BinCfg, DocCfg};
+use crate::sched::{self, SchedReader, Step};
+use crate::show::bin_lex_tok;
+use jomini::binary::{LexError, LexemeId, Lexer, ReaderError, ReaderErrorKind, Rgb, Token, TokenReader};
+use jomini::verif_hooks::{BufferError, BufferWindowBuilder};
+use jomini::Scalar;
+use std::cell::RefCell;
+use std::io::Read;
+use std::rc::Rc;
 
-pub fn gen(g: &mut Gen) {}
+// ------------------------------------------------------------------------------------------
+// printing / parsing
 
-pub fn exec(w: &[&str], obs: &mut Obs) -> Option<String> {
+fn lex_err(e: &LexError) -> &'static str {
+    match e {
+        LexError::Eof => "err:eof",
+        LexError::InvalidRgb => "err:invalidrgb",
+    }
+}
+
+fn rd_err(e: &ReaderError) -> &'static str {
+    match e.kind() {
+        ReaderErrorKind::Read(_) => "err:io",
+        ReaderErrorKind::BufferFull => "err:bufferfull",
+        ReaderErrorKind::Lexer(l) => lex_err(l),
+    }
+}
+
+fn join(v: &[String]) -> String {
+    if v.is_empty() { "-".to_string() } else { v.join(",") }
+}
+
+/// owned token (the case line form)
+#[derive(Clone, Debug, PartialEq)]
+pub enum OTok {
+    Open, Close, Equal, U32(u32), U64(u64), I32(i32), Bool(bool), Quoted(Vec<u8>), Unquoted(Vec<u8>),
+    F32([u8; 4]), F64([u8; 8]), Rgb(u32, u32, u32, Option<u32>), I64(i64), Id(u16),
+}
+
+impl OTok {
+    pub fn borrow(&self) -> Token<'_> {
+        match self {
+            OTok::Open => Token::Open,
+            OTok::Close => Token::Close,
+            OTok::Equal => Token::Equal,
+            OTok::U32(v) => Token::U32(*v),
+            OTok::U64(v) => Token::U64(*v),
+            OTok::I32(v) => Token::I32(*v),
+            OTok::Bool(v) => Token::Bool(*v),
+            OTok::Quoted(s) => Token::Quoted(Scalar::new(s)),
+            OTok::Unquoted(s) => Token::Unquoted(Scalar::new(s)),
+            OTok::F32(b) => Token::F32(*b),
+            OTok::F64(b) => Token::F64(*b),
+            OTok::Rgb(r, g, b, a) => Token::Rgb(Rgb { r: *r, g: *g, b: *b, a: *a }),
+            OTok::I64(v) => Token::I64(*v),
+            OTok::Id(v) => Token::Id(*v),
+        }
+    }
+    pub fn show(&self) -> String {
+        bin_lex_tok(&self.borrow())
+    }
+    pub fn kind(&self) -> &'static str {
+        match self {
+            OTok::Open => "open", OTok::Close => "close", OTok::Equal => "equal", OTok::U32(_) => "u32", OTok::U64(_) => "u64",
+            OTok::I32(_) => "i32", OTok::Bool(_) => "bool", OTok::Quoted(_) => "quoted", OTok::Unquoted(_) => "unquoted",
+            OTok::F32(_) => "f32", OTok::F64(_) => "f64", OTok::Rgb(..) => "rgb", OTok::I64(_) => "i64", OTok::Id(_) => "id",
+        }
+    }
+    /// the hypothesis `WfTok` of the Lean theorem C08_codec
+    pub fn wf(&self) -> bool {
+        match self {
+            OTok::Id(v) => LexemeId::new(*v).is_id(),
+            OTok::Quoted(s) | OTok::Unquoted(s) => s.len() <= 65535,
+            _ => true,
+        }
+    }
+    pub fn write(&self, out: &mut Vec<u8>) {
+        self.borrow().write(out).unwrap();
+    }
+}
+
+fn parse_tok(s: &str) -> Option<OTok> {
+    let (k, v) = match s.split_once(':') {
+        Some((k, v)) => (k, v),
+        None => (s, ""),
+    };
+    Some(match k {
+        "Open" => OTok::Open,
+        "Close" => OTok::Close,
+        "Equal" => OTok::Equal,
+        "U32" => OTok::U32(v.parse().ok()?),
+        "U64" => OTok::U64(v.parse().ok()?),
+        "I32" => OTok::I32(v.parse().ok()?),
+        "I64" => OTok::I64(v.parse().ok()?),
+        "Bool" => OTok::Bool(match v { "1" => true, "0" => false, _ => return None }),
+        "Q" => OTok::Quoted(unhex(v)?),
+        "U" => OTok::Unquoted(unhex(v)?),
+        "F32" => OTok::F32(unhex(v)?.try_into().ok()?),
+        "F64" => OTok::F64(unhex(v)?.try_into().ok()?),
+        "Id" => OTok::Id(v.parse().ok()?),
+        "Rgb" => {
+            let p: Vec<u32> = v.split('.').map(|x| x.parse().ok()).collect::<Option<_>>()?;
+            match p.len() {
+                3 => OTok::Rgb(p[0], p[1], p[2], None),
+                4 => OTok::Rgb(p[0], p[1], p[2], Some(p[3])),
+                _ => return None,
+            }
+        }
+        _ => return None,
+    })
+}
+
+fn parse_toks(s: &str) -> Option<Vec<OTok>> {
+    if s == "-" { return Some(vec![]); }
+    s.split(',').map(parse_tok).collect()
+}
+
+fn show_toks(t: &[OTok]) -> String {
+    join(&t.iter().map(|x| x.show()).collect::<Vec<_>>())
+}
+
+// ------------------------------------------------------------------------------------------
+// reference run of the slice lexer
+
+pub struct LexRun {
+    pub toks: Vec<String>,
+    /// byte offset just after each token
+    pub ends: Vec<usize>,
+    pub kinds: Vec<u8>, // b'o' open, b'c' close, b'x' other
+    pub outcome: &'static str,
+    pub pos: usize,
+}
+
+pub fn lex_run(d: &[u8]) -> LexRun {
+    let mut lx = Lexer::new(d);
+    let mut r = LexRun { toks: vec![], ends: vec![], kinds: vec![], outcome: "end", pos: 0 };
+    loop {
+        match lx.next_token() {
+            Ok(Some(t)) => {
+                r.kinds.push(match t { Token::Open => b'o', Token::Close => b'c', _ => b'x' });
+                r.toks.push(bin_lex_tok(&t));
+                r.ends.push(lx.position());
+            }
+            Ok(None) => { r.outcome = "end"; break; }
+            Err(e) => { r.outcome = lex_err(e.kind()); break; }
+        }
+    }
+    r.pos = lx.position();
+    r
+}
+
+/// smallest buffer capacity for which the Lean hypothesis `Fits cap data` holds: every
+/// token fits, and the bytes of a failing trailing token do not fill the buffer.
+pub fn min_cap(d: &[u8]) -> usize {
+    let r = lex_run(d);
+    let mut need = 1usize;
+    let mut prev = 0usize;
+    for &e in &r.ends {
+        need = need.max(e - prev);
+        prev = e;
+    }
+    let rest = &d[r.pos..];
+    match r.outcome {
+        "err:eof" => need = need.max(rest.len() + 1),
+        "err:invalidrgb" => {
+            // largest prefix of the rest on which the lexer still says Eof
+            let mut k = 0;
+            while k <= rest.len() && matches!(Lexer::new(&rest[..k]).read_token().map_err(|e| *e.kind()), Err(LexError::Eof)) {
+                k += 1;
+            }
+            need = need.max(k); // k-1 is the largest Eof prefix; cap must exceed it
+        }
+        _ => {}
+    }
+    need
+}
+
+// ------------------------------------------------------------------------------------------
+// scheduled source shared between the reader and the observer
+
+struct Shared<'a>(Rc<RefCell<SchedReader<'a>>>);
+impl<'a> Read for Shared<'a> {
+    fn read(&mut self, buf: &mut [u8]) -> std::io::Result<usize> {
+        self.0.borrow_mut().read(buf)
+    }
+}
+
+enum CapW { Fresh(usize), Recycled(usize), Slice }
+
+fn parse_cap(s: &str) -> Option<CapW> {
+    if s == "S" { Some(CapW::Slice) }
+    else if let Some(n) = s.strip_prefix('r') { n.parse().ok().map(CapW::Recycled) }
+    else { s.parse().ok().map(CapW::Fresh) }
+}
+
+fn cap_value(c: &CapW, len: usize) -> usize {
+    match c { CapW::Fresh(n) | CapW::Recycled(n) => *n, CapW::Slice => len.max(1) + 70000 }
+}
+
+/// run `f` with a TokenReader built as the `<cap>` word says; `f` also gets a closure
+/// returning the number of bytes the source has delivered so far.
+fn with_reader<T>(cap: &CapW, steps: Vec<Step>, data: &[u8], f: impl FnOnce(&mut dyn Stream, &dyn Fn() -> (usize, usize, usize)) -> T) -> T {
+    match cap {
+        CapW::Slice => {
+            let mut rd = TokenReader::from_slice(data);
+            f(&mut rd, &|| (0, 0, 0))
+        }
+        CapW::Fresh(n) | CapW::Recycled(n) => {
+            let sr = Rc::new(RefCell::new(SchedReader::new(data, steps)));
+            let b = TokenReader::builder();
+            let b = match cap { CapW::Recycled(_) => b.buffer(vec![0xaa; *n].into_boxed_slice()), _ => b.buffer_len(*n) };
+            let mut rd = b.build(Shared(sr.clone()));
+            let obs = sr.clone();
+            f(&mut rd, &move || { let s = obs.borrow(); (s.delivered(), s.faults, s.idx) })
+        }
+    }
+}
+
+/// object-safe view of `TokenReader<R>` with results already rendered
+trait Stream {
+    fn next_s(&mut self) -> Result<Option<(String, u8)>, (&'static str, usize)>;
+    fn read_s(&mut self) -> Result<String, (&'static str, usize)>;
+    fn read_bytes_s(&mut self, n: usize) -> Result<String, (&'static str, usize)>;
+    fn skip_s(&mut self) -> Result<(), (&'static str, usize)>;
+    fn pos(&self) -> usize;
+}
+impl<R: Read> Stream for TokenReader<R> {
+    fn next_s(&mut self) -> Result<Option<(String, u8)>, (&'static str, usize)> {
+        match self.next() {
+            Ok(Some(t)) => Ok(Some((bin_lex_tok(&t), match t { Token::Open => b'o', Token::Close => b'c', _ => b'x' }))),
+            Ok(None) => Ok(None),
+            Err(e) => Err((rd_err(&e), e.position())),
+        }
+    }
+    fn read_s(&mut self) -> Result<String, (&'static str, usize)> {
+        match self.read() {
+            Ok(t) => Ok(bin_lex_tok(&t)),
+            Err(e) => Err((rd_err(&e), e.position())),
+        }
+    }
+    fn read_bytes_s(&mut self, n: usize) -> Result<String, (&'static str, usize)> {
+        match self.read_bytes(n) {
+            Ok(b) => Ok(hex(b)),
+            Err(e) => Err((rd_err(&e), e.position())),
+        }
+    }
+    fn skip_s(&mut self) -> Result<(), (&'static str, usize)> {
+        self.skip_container().map_err(|e| (rd_err(&e), e.position()))
+    }
+    fn pos(&self) -> usize {
+        self.position()
+    }
+}
+
+fn has_fault(steps: &[Step]) -> bool {
+    steps.iter().any(|s| matches!(s, Step::Fail | Step::FailForever))
+}
+
+/// index of a reachable `P` step (no `R` before it)
+fn reachable_p(steps: &[Step]) -> Option<usize> {
+    for (i, s) in steps.iter().enumerate() {
+        match s {
+            Step::Repeat(_) => return None,
+            Step::FailForever => return Some(i),
+            _ => {}
+        }
+    }
     None
 }
 
+/// reference for skip: index of the token after the close matching the `k`-th open
+/// (None: no such open; Some(Err): never closed)
+fn balanced(lr: &LexRun, k: usize) -> Option<Result<usize, ()>> {
+    let mut seen = 0;
+    let mut start = None;
+    for (i, &c) in lr.kinds.iter().enumerate() {
+        if c == b'o' {
+            if seen == k { start = Some(i); break; }
+            seen += 1;
+        }
+    }
+    let start = start?;
+    let mut depth = 1i64;
+    for i in start + 1..lr.kinds.len() {
+        match lr.kinds[i] { b'o' => depth += 1, b'c' => depth -= 1, _ => {} }
+        if depth == 0 { return Some(Ok(i + 1)); }
+    }
+    Some(Err(()))
+}
+
+// ------------------------------------------------------------------------------------------
+
+pub fn exec(w: &[&str], obs: &mut Obs) -> Option<String> {
+    let case = || w.join(" ");
+    match w {
+        ["blex", h] | ["bcut", h, _] => {
+            let full = unhex(h)?;
+            let d: &[u8] = if w[0] == "bcut" { let k: usize = w[2].parse().ok()?; if k > full.len() { return None; } &full[..k] } else { &full };
+            let mut lx = Lexer::new(d);
+            let mut toks = vec![];
+            let outcome;
+            loop {
+                // L3: peek agrees with what is read next
+                let pk = lx.peek_token().map(|t| bin_lex_tok(&t));
+                let pid = lx.peek_id();
+                let rem = lx.remainder();
+                let want_pid = if rem.len() >= 2 { Some(LexemeId::new(u16::from_le_bytes([rem[0], rem[1]]))) } else { None };
+                if pid != want_pid { obs.violation("peek-id", &case(), &format!("at {}", lx.position())); }
+                let before = lx.position();
+                match lx.next_token() {
+                    Ok(Some(t)) => {
+                        let s = bin_lex_tok(&t);
+                        if pk.as_deref() != Some(&s) { obs.violation("peek-token", &case(), &format!("at {} peek {:?} next {}", before, pk, s)); }
+                        obs.count(&format!("tok:{}", s.split(':').next().unwrap()));
+                        toks.push(s);
+                    }
+                    Ok(None) => {
+                        if pk.is_some() || !rem.is_empty() { obs.violation("end-with-data", &case(), ""); }
+                        outcome = "end";
+                        break;
+                    }
+                    Err(e) => {
+                        if pk.is_some() { obs.violation("peek-token", &case(), "peek Some on failing token"); }
+                        if e.position() != lx.position() || lx.position() != before { obs.violation("err-position", &case(), ""); }
+                        outcome = lex_err(e.kind());
+                        break;
+                    }
+                }
+            }
+            obs.count(&format!("{}:{}", w[0], outcome));
+            // L3: read_token (not next_token) gives the same tokens and turns a clean end into Eof
+            {
+                let mut l2 = Lexer::new(d);
+                let mut n = 0;
+                let o2 = loop {
+                    match l2.read_token() { Ok(t) => { if toks.get(n) != Some(&bin_lex_tok(&t)) { break "diff"; } n += 1; } Err(e) => break lex_err(e.kind()) }
+                };
+                let want = if outcome == "end" { "err:eof" } else { outcome };
+                if o2 != want || n != toks.len() || l2.position() != lx.position() { obs.violation("read-token-vs-next-token", &case(), o2); }
+            }
+            if w[0] == "bcut" {
+                // L3 (C19): the prefix yields exactly the full input's tokens ending at or before k,
+                // then a clean end iff k is a token boundary, otherwise Eof
+                let k = d.len();
+                let fr = lex_run(&full);
+                let n = fr.ends.iter().take_while(|e| **e <= k).count();
+                let boundary = k == 0 || fr.ends[..n].last() == Some(&k);
+                // the full run may stop early on an error of its own: then nothing is claimed beyond it
+                let full_covers = n < fr.ends.len() || fr.pos >= k || fr.outcome == "end";
+                if toks[..] != fr.toks[..n.min(fr.toks.len())] && full_covers {
+                    obs.violation("prefix-tokens", &case(), &format!("prefix {:?} full {:?}", toks, &fr.toks[..n]));
+                }
+                if full_covers && n < fr.ends.len() {
+                    let want = if boundary { "end" } else { "err:eof" };
+                    if outcome != want { obs.violation("prefix-outcome", &case(), &format!("got {} want {}", outcome, want)); }
+                }
+                if outcome == "err:invalidrgb" && fr.outcome != "err:invalidrgb" { obs.violation("prefix-fabricated-error", &case(), ""); }
+                obs.count(if boundary { "cut:boundary" } else { "cut:inside" });
+            }
+            Some(format!("{} {} {}", join(&toks), outcome, lx.position()))
+        }
+        ["blexid", h] => {
+            let d = unhex(h)?;
+            let mut lx = Lexer::new(&d);
+            let mut toks: Vec<String> = vec![];
+            let mut outcome = "end";
+            loop {
+                let id = match lx.next_id() {
+                    Ok(Some(id)) => id,
+                    Ok(None) => break,
+                    Err(e) => { outcome = lex_err(e.kind()); break; }
+                };
+                macro_rules! rd { ($call:expr, $mk:expr) => { match $call { Ok(x) => $mk(x), Err(e) => { outcome = lex_err(e.kind()); break; } } }; }
+                let t: Token = match id {
+                    LexemeId::OPEN => Token::Open,
+                    LexemeId::CLOSE => Token::Close,
+                    LexemeId::EQUAL => Token::Equal,
+                    LexemeId::U32 => rd!(lx.read_u32(), Token::U32),
+                    LexemeId::U64 => rd!(lx.read_u64(), Token::U64),
+                    LexemeId::I32 => rd!(lx.read_i32(), Token::I32),
+                    LexemeId::BOOL => rd!(lx.read_bool(), Token::Bool),
+                    LexemeId::QUOTED => rd!(lx.read_string(), Token::Quoted),
+                    LexemeId::UNQUOTED => rd!(lx.read_string(), Token::Unquoted),
+                    LexemeId::F32 => rd!(lx.read_f32(), Token::F32),
+                    LexemeId::F64 => rd!(lx.read_f64(), Token::F64),
+                    LexemeId::RGB => rd!(lx.read_rgb(), Token::Rgb),
+                    LexemeId::I64 => rd!(lx.read_i64(), Token::I64),
+                    LexemeId(x) => Token::Id(x),
+                };
+                toks.push(bin_lex_tok(&t));
+            }
+            // L3: the primitives agree with next_token (position differs only on a failing payload:
+            // the id has already been consumed)
+            let fr = lex_run(&d);
+            if toks != fr.toks || outcome != fr.outcome { obs.violation("primitives-vs-next-token", &case(), &format!("{:?}/{} vs {:?}/{}", toks, outcome, fr.toks, fr.outcome)); }
+            Some(format!("{} {} {}", join(&toks), outcome, lx.position()))
+        }
+        ["bpeek", h] => {
+            let d = unhex(h)?;
+            let lx = Lexer::new(&d);
+            let a = lx.peek_id().map(|i| i.0.to_string()).unwrap_or("none".into());
+            let b = lx.peek_token().map(|t| bin_lex_tok(&t)).unwrap_or("none".into());
+            Some(format!("{} {}", a, b))
+        }
+        ["bwrite", ts] => {
+            let toks = parse_toks(ts)?;
+            let mut out = vec![];
+            for t in &toks { t.write(&mut out); obs.count(&format!("write:{}", t.kind())); }
+            // L3: write -> lex round trip (for well-formed tokens), slice lexer and default reader
+            let wf = toks.iter().all(|t| t.wf());
+            let fr = lex_run(&out);
+            let same = fr.toks == toks.iter().map(|t| t.show()).collect::<Vec<_>>() && fr.outcome == "end" && fr.pos == out.len();
+            if wf {
+                if !same { obs.violation("write-lex-roundtrip", &case(), &format!("lexed {:?} {} {}", fr.toks, fr.outcome, fr.pos)); }
+                let mut rd = TokenReader::builder().buffer_len(min_cap(&out)).build(&out[..]);
+                let mut n = 0;
+                loop {
+                    match rd.next() {
+                        Ok(Some(t)) => { if fr.toks.get(n) != Some(&bin_lex_tok(&t)) { obs.violation("write-stream-roundtrip", &case(), ""); break; } n += 1; }
+                        Ok(None) => { if n != toks.len() || rd.position() != out.len() { obs.violation("write-stream-roundtrip", &case(), "short"); } break; }
+                        Err(_) => { obs.violation("write-stream-roundtrip", &case(), "error"); break; }
+                    }
+                }
+                obs.count("write:wf");
+            } else {
+                // the two exclusions of WfTok, demonstrated on the real code
+                obs.count(if same { "write:excluded-but-roundtrips" } else { "write:excluded-differs" });
+            }
+            Some(hex(&out))
+        }
+        ["bstream", cw, sw, h] | ["bread", cw, sw, h] => {
+            let d = unhex(h)?;
+            let steps = sched::parse(sw)?;
+            let cap = parse_cap(cw)?;
+            let use_read = w[0] == "bread";
+            let fr = lex_run(&d);
+            let fits = cap_value(&cap, d.len()) >= min_cap(&d);
+            let faulty = has_fault(&steps);
+            let line = with_reader(&cap, steps.clone(), &d, |rd, st| {
+                let mut toks = vec![];
+                let outcome;
+                loop {
+                    let r = if use_read { rd.read_s().map(|t| Some((t, 0u8))) } else { rd.next_s() };
+                    let (deliv, _, _) = st();
+                    if !matches!(cap, CapW::Slice) && rd.pos() > deliv { obs.violation("position-beyond-delivered", &case(), &format!("{} > {}", rd.pos(), deliv)); }
+                    match r {
+                        Ok(Some((t, _))) => toks.push(t),
+                        Ok(None) => { outcome = "end"; break; }
+                        Err((k, p)) => { if p != rd.pos() { obs.violation("err-position", &case(), ""); } outcome = k; break; }
+                    }
+                }
+                let (deliv, faults, _) = st();
+                let pos = rd.pos();
+                // L3
+                let want_outcome = if use_read && fr.outcome == "end" { "err:eof" } else { fr.outcome };
+                let equal = toks == fr.toks && outcome == want_outcome && pos == fr.pos;
+                let is_prefix = toks.len() <= fr.toks.len() && toks[..] == fr.toks[..toks.len()];
+                if !is_prefix { obs.violation("stream-token-not-lexer-token", &case(), &format!("{:?} vs {:?}", toks, fr.toks)); }
+                if fits && !faulty && !equal {
+                    obs.violation("stream-ne-lexer", &case(), &format!("stream {:?} {} {} lexer {:?} {} {}", toks, outcome, pos, fr.toks, want_outcome, fr.pos));
+                }
+                if fits && faulty && !(equal || outcome == "err:io") {
+                    obs.violation("fault-changed-result", &case(), &format!("{} {}", outcome, pos));
+                }
+                if outcome == "err:io" && faults == 0 { obs.violation("io-error-without-fault", &case(), ""); }
+                if !fits && !equal && !outcome.starts_with("err:") { obs.violation("small-buffer-not-error", &case(), outcome); }
+                if outcome == "end" && !matches!(cap, CapW::Slice) && deliv != d.len() && fits { obs.violation("clean-end-before-all-delivered", &case(), ""); }
+                obs.count(&format!("{}:{}{}{}", w[0], outcome, if fits { "" } else { ":small" }, if faulty { ":faulty" } else { "" }));
+                format!("{} {} {} {}", join(&toks), outcome, pos, deliv)
+            });
+            Some(line)
+        }
+        ["bcalls", cw, sw, h, nw] => {
+            let d = unhex(h)?;
+            let steps = sched::parse(sw)?;
+            let cap = parse_cap(cw)?;
+            let n: usize = nw.parse().ok()?;
+            let fr = lex_run(&d);
+            let fits = cap_value(&cap, d.len()) >= min_cap(&d);
+            let pidx = reachable_p(&steps);
+            let line = with_reader(&cap, steps.clone(), &d, |rd, st| {
+                let mut log = vec![];
+                let mut seen = 0usize; // tokens returned so far
+                let mut p_hit = false; // the persistent fault has been returned by a read call
+                for _ in 0..n {
+                    let (_, f0, i0) = st();
+                    let r = rd.next_s();
+                    let (deliv, f1, _) = st();
+                    if pidx.is_some() && Some(i0) == pidx && f1 > f0 { p_hit = true; }
+                    let pos = rd.pos();
+                    if !matches!(cap, CapW::Slice) && pos > deliv { obs.violation("position-beyond-delivered", &case(), ""); }
+                    let s = match r {
+                        Ok(Some((t, _))) => {
+                            if fr.toks.get(seen) != Some(&t) { obs.violation("call-token-not-lexer-token", &case(), &format!("call token {} at index {}", t, seen)); }
+                            seen += 1;
+                            if fits && fr.ends.get(seen - 1) != Some(&pos) { obs.violation("call-position", &case(), ""); }
+                            t
+                        }
+                        Ok(None) => {
+                            if fits && !(seen == fr.toks.len() && fr.outcome == "end") { obs.violation("early-clean-end", &case(), &format!("after {} tokens", seen)); }
+                            if p_hit { obs.violation("persistent-fault-clean-end", &case(), ""); }
+                            "end".to_string()
+                        }
+                        Err((k, _)) => {
+                            if fits && k != "err:io" && !(seen == fr.toks.len() && k == fr.outcome) { obs.violation("call-error-not-lexer-error", &case(), k); }
+                            if fits && k == "err:bufferfull" { obs.violation("bufferfull-though-fits", &case(), ""); }
+                            obs.count(&format!("bcalls:{}", k));
+                            k.to_string()
+                        }
+                    };
+                    log.push(format!("{}@{}", s, pos));
+                }
+                format!("{} {}", join(&log), st().0)
+            });
+            Some(line)
+        }
+        ["breadbytes", cw, sw, h, nsw] => {
+            let d = unhex(h)?;
+            let steps = sched::parse(sw)?;
+            let cap = parse_cap(cw)?;
+            let ns: Vec<usize> = if *nsw == "-" { vec![] } else { nsw.split(',').map(|x| x.parse().ok()).collect::<Option<_>>()? };
+            let capv = cap_value(&cap, d.len());
+            let line = with_reader(&cap, steps.clone(), &d, |rd, st| {
+                let mut log = vec![];
+                let mut at = 0usize;
+                for &n in &ns {
+                    match rd.read_bytes_s(n) {
+                        Ok(b) => {
+                            // L3: exactly the next n bytes of the input
+                            if at + n > d.len() || b != hex(&d[at..at + n]) { obs.violation("read-bytes-content", &case(), ""); }
+                            at += n;
+                            log.push(format!("{}@{}", b, rd.pos()));
+                        }
+                        Err((k, _)) => {
+                            if k == "err:eof" && at + n <= d.len() && n <= capv && !has_fault(&steps) { obs.violation("read-bytes-spurious-eof", &case(), ""); }
+                            log.push(format!("{}@{}", k, rd.pos()));
+                        }
+                    }
+                    if rd.pos() != at { obs.violation("read-bytes-position", &case(), ""); }
+                }
+                format!("{} {}", join(&log), st().0)
+            });
+            Some(line)
+        }
+        ["bskip", cw, sw, h, kw] => {
+            let d = unhex(h)?;
+            let steps = sched::parse(sw)?;
+            let cap = parse_cap(cw)?;
+            let k: usize = kw.parse().ok()?;
+            let fr = lex_run(&d);
+            let fits = cap_value(&cap, d.len()) >= min_cap(&d);
+            let faulty = has_fault(&steps);
+            let reference = balanced(&fr, k);
+            let line = with_reader(&cap, steps.clone(), &d, |rd, st| {
+                let mut left = k;
+                loop {
+                    match rd.next_s() {
+                        Ok(Some((_, b'o'))) => { if left == 0 { break; } left -= 1; }
+                        Ok(Some(_)) => {}
+                        Ok(None) => return format!("noopen {}", rd.pos()),
+                        Err((e, _)) => return format!("pre:{} {}", e, rd.pos()),
+                    }
+                }
+                match rd.skip_s() {
+                    Ok(()) => {
+                        let p = rd.pos();
+                        if p > st().0 && !matches!(cap, CapW::Slice) { obs.violation("position-beyond-delivered", &case(), ""); }
+                        // L3: lands exactly after the matching close
+                        match reference {
+                            Some(Ok(next)) => { if fr.ends[next - 1] != p { obs.violation("skip-lands-elsewhere", &case(), &format!("at {} want {}", p, fr.ends[next - 1])); } }
+                            Some(Err(())) if fr.outcome != "err:invalidrgb" => obs.violation("skip-ok-without-close", &case(), &format!("at {}", p)),
+                            _ => {}
+                        }
+                        let nx = match rd.next_s() {
+                            Ok(Some((t, _))) => {
+                                if let Some(Ok(next)) = reference { if fits && fr.toks.get(next) != Some(&t) && !faulty { obs.violation("skip-next-token", &case(), &t); } }
+                                t
+                            }
+                            Ok(None) => "end".to_string(),
+                            Err((e, _)) => e.to_string(),
+                        };
+                        obs.count("bskip:ok");
+                        format!("ok {} {} {}", p, nx, rd.pos())
+                    }
+                    Err((e, ep)) => {
+                        if let Some(Ok(_)) = reference { if fits && !(faulty && e == "err:io") { obs.violation("skip-fails-on-balanced", &case(), e); } }
+                        obs.count(&format!("bskip:{}", e));
+                        format!("{} {} {}", e, ep, rd.pos())
+                    }
+                }
+            });
+            Some(line)
+        }
+        ["blexskip", h, kw] => {
+            let d = unhex(h)?;
+            let k: usize = kw.parse().ok()?;
+            let fr = lex_run(&d);
+            let reference = balanced(&fr, k);
+            let mut lx = Lexer::new(&d);
+            let mut left = k;
+            loop {
+                match lx.next_token() {
+                    Ok(Some(Token::Open)) => { if left == 0 { break; } left -= 1; }
+                    Ok(Some(_)) => {}
+                    Ok(None) => return Some(format!("noopen {}", lx.position())),
+                    Err(e) => return Some(format!("pre:{} {}", lex_err(e.kind()), lx.position())),
+                }
+            }
+            Some(lex_skip_report(&mut lx, LexemeId::OPEN, reference.map(|r| r.map(|n| fr.ends[n - 1])), fr.outcome, &case(), obs))
+        }
+        ["blexskipv", h, kw] => {
+            let d = unhex(h)?;
+            let k: usize = kw.parse().ok()?;
+            let fr = lex_run(&d);
+            let mut lx = Lexer::new(&d);
+            for _ in 0..k {
+                match lx.next_token() {
+                    Ok(Some(_)) => {}
+                    Ok(None) => return Some(format!("short {}", lx.position())),
+                    Err(e) => return Some(format!("pre:{} {}", lex_err(e.kind()), lx.position())),
+                }
+            }
+            let id = match lx.read_id() {
+                Ok(id) => id,
+                Err(e) => return Some(format!("id:{} {}", lex_err(e.kind()), lx.position())),
+            };
+            // reference: the end of token k; for an Open the matching close
+            let reference = if k < fr.toks.len() {
+                if fr.kinds[k] == b'o' {
+                    let opens_before = fr.kinds[..k].iter().filter(|c| **c == b'o').count();
+                    balanced(&fr, opens_before).map(|r| r.map(|n| fr.ends[n - 1]))
+                } else { Some(Ok(fr.ends[k])) }
+            } else { None };
+            Some(format!("{} {}", id.0, lex_skip_report(&mut lx, id, reference, fr.outcome, &case(), obs)))
+        }
+        ["bufops", cw, sw, h, opsw] => {
+            let d = unhex(h)?;
+            let steps = sched::parse(sw)?;
+            let cap = parse_cap(cw)?;
+            let mut sr = SchedReader::new(&d, steps);
+            let mut bw = match cap {
+                CapW::Fresh(n) => BufferWindowBuilder::default().buffer_len(n).build(),
+                CapW::Recycled(n) => BufferWindowBuilder::default().buffer(vec![0xaa; n].into_boxed_slice()).build(),
+                CapW::Slice => jomini::verif_hooks::BufferWindow::from_slice(&d),
+            };
+            let slice = matches!(cap, CapW::Slice);
+            let mut out = vec![];
+            let ops: Vec<&str> = if *opsw == "-" { vec![] } else { opsw.split(',').collect() };
+            for op in ops {
+                if op == "f" {
+                    let before = (bw.window().to_vec(), bw.position());
+                    let r = bw.fill_buf(&mut sr);
+                    let rs = match &r { Ok(n) => n.to_string(), Err(BufferError::Io(_)) => "io".to_string(), Err(BufferError::BufferFull) => "full".to_string() };
+                    // L3: nothing is lost or reordered by a fill, whatever its outcome
+                    if bw.position() != before.1 || !bw.window().starts_with(&before.0) { obs.violation("fill-changes-consumed-view", &case(), &rs); }
+                    if let Ok(n) = r { if bw.window().len() != before.0.len() + n { obs.violation("fill-count", &case(), ""); } }
+                    obs.count(&format!("bufops:f={}", if rs.chars().all(|c| c.is_ascii_digit()) { if rs == "0" { "0" } else { "n" } } else { &rs }));
+                    out.push(format!("f={}:{}@{}", rs, hex(bw.window()), bw.position()));
+                } else if let Some(n) = op.strip_prefix('a') {
+                    let n: usize = n.parse().ok()?;
+                    if n > bw.window_len() { out.push("ub".to_string()); break; }
+                    bw.advance(n);
+                    out.push(format!("a:{}@{}", hex(bw.window()), bw.position()));
+                } else {
+                    out.push("bad-op".to_string());
+                    break;
+                }
+                // L3 (Buffer_refines on the real code): window ++ undelivered == data[position..]
+                let p = bw.position();
+                let undelivered: &[u8] = if slice { &[] } else { &d[sr.delivered()..] };
+                let mut view = bw.window().to_vec();
+                view.extend_from_slice(undelivered);
+                if p > d.len() || view != d[p..] { obs.violation("buffer-view", &case(), &format!("position {}", p)); }
+            }
+            Some(if out.is_empty() { "-".to_string() } else { out.join(";") })
+        }
+        _ => None,
+    }
+}
+
+/// shared tail of blexskip / blexskipv: call skip_value, report, compare with the reference
+/// (`Some(Ok(p))` = must land at byte p, `Some(Err)` = container never closes)
+fn lex_skip_report(lx: &mut Lexer, id: LexemeId, reference: Option<Result<usize, ()>>, full_outcome: &str, case: &str, obs: &mut Obs) -> String {
+    match lx.skip_value(id) {
+        Ok(()) => {
+            let p = lx.position();
+            match reference {
+                Some(Ok(want)) => { if want != p { obs.violation("lexskip-lands-elsewhere", case, &format!("at {} want {}", p, want)); } }
+                Some(Err(())) if full_outcome != "err:invalidrgb" => obs.violation("lexskip-ok-without-close", case, ""),
+                _ => {}
+            }
+            let nx = match lx.next_token() {
+                Ok(Some(t)) => bin_lex_tok(&t),
+                Ok(None) => "end".to_string(),
+                Err(e) => lex_err(e.kind()).to_string(),
+            };
+            obs.count("lexskip:ok");
+            format!("ok {} {} {}", p, nx, lx.position())
+        }
+        Err(e) => {
+            if let Some(Ok(_)) = reference { obs.violation("lexskip-fails-on-balanced", case, lex_err(e.kind())); }
+            obs.count(&format!("lexskip:{}", lex_err(e.kind())));
+            format!("{} {} {}", lex_err(e.kind()), e.position(), lx.position())
+        }
+    }
+}
+
+// ------------------------------------------------------------------------------------------
+// generators
+
+const RESERVED: [u16; 13] = [0x0003, 0x0004, 0x0001, 0x0014, 0x029c, 0x000c, 0x000e, 0x000f, 0x0017, 0x000d, 0x0167, 0x0243, 0x0317];
+
+fn boundary_u32(rng: &mut Rng) -> u32 {
+    *rng.pick(&[0u32, 1, 2, 255, 256, 65535, 65536, 0x7fff_ffff, 0x8000_0000, u32::MAX, u32::MAX - 1, 0x0003_0003, 0x0004_0004, 0x0014_0243])
+}
+fn boundary_u64(rng: &mut Rng) -> u64 {
+    *rng.pick(&[0u64, 1, 255, 256, u32::MAX as u64, u32::MAX as u64 + 1, i64::MAX as u64, i64::MAX as u64 + 1, u64::MAX, u64::MAX - 1, 0x0004_0003_0004_0003])
+}
+
+fn small_string(rng: &mut Rng) -> Vec<u8> {
+    let len = match rng.below(10) { 0 => 0, 1 => 1, 2 => 2, 3 => rng.range(250, 260), _ => rng.size(24) };
+    (0..len)
+        .map(|_| match rng.below(10) {
+            // bytes that look like lexeme ids when paired with 00 / 02 / 03
+            0 => 0x03, 1 => 0x04, 2 => 0x00, 3 => *rng.pick(&[0x01u8, 0x0c, 0x0d, 0x0e, 0x0f, 0x14, 0x17, 0x67, 0x43, 0x9c, 0x02]),
+            _ => rng.below(256) as u8,
+        })
+        .collect()
+}
+
+/// one random token; `wf_only` keeps to the hypothesis of C08_codec
+pub fn gen_tok(rng: &mut Rng, wf_only: bool) -> OTok {
+    match rng.below(16) {
+        0 => OTok::Open,
+        1 => OTok::Close,
+        2 => OTok::Equal,
+        3 => OTok::U32(if rng.chance(1, 2) { boundary_u32(rng) } else { rng.next() as u32 }),
+        4 => OTok::U64(if rng.chance(1, 2) { boundary_u64(rng) } else { rng.next() }),
+        5 => OTok::I32(if rng.chance(1, 2) { boundary_u32(rng) as i32 } else { rng.next() as i32 }),
+        6 => OTok::Bool(rng.chance(1, 2)),
+        7 => OTok::Quoted(small_string(rng)),
+        8 => OTok::Unquoted(small_string(rng)),
+        9 => OTok::F32((rng.next() as u32).to_le_bytes()),
+        10 => OTok::F64(if rng.chance(1, 4) { [0x03, 0x00, 0x04, 0x00, 0x03, 0x00, 0x04, 0x00] } else { rng.next().to_le_bytes() }),
+        11 => OTok::Rgb(boundary_u32(rng), rng.next() as u32, boundary_u32(rng), if rng.chance(1, 2) { Some(boundary_u32(rng)) } else { None }),
+        12 => OTok::I64(if rng.chance(1, 2) { boundary_u64(rng) as i64 } else { rng.next() as i64 }),
+        _ => loop {
+            let v = match rng.below(4) { 0 => RESERVED[rng.below(13)].wrapping_add(rng.below(3) as u16).wrapping_sub(1), 1 => rng.below(0x400) as u16, _ => rng.next() as u16 };
+            if !wf_only || LexemeId::new(v).is_id() { break OTok::Id(v); }
+        },
+    }
+}
+
+/// a balanced-ish token sequence (containers nest, strings look like brackets)
+pub fn gen_token_seq(rng: &mut Rng, max: usize, wf_only: bool) -> Vec<OTok> {
+    let n = rng.size(max);
+    let mut v = vec![];
+    let mut depth = 0usize;
+    for _ in 0..n {
+        let t = gen_tok(rng, wf_only);
+        match t {
+            OTok::Open => depth += 1,
+            OTok::Close => { if depth == 0 && rng.chance(3, 4) { continue; } depth = depth.saturating_sub(1); }
+            _ => {}
+        }
+        v.push(t);
+    }
+    if rng.chance(3, 4) { for _ in 0..depth { v.push(OTok::Close); } }
+    v
+}
+
+fn encode(toks: &[OTok]) -> Vec<u8> {
+    let mut out = vec![];
+    for t in toks { t.write(&mut out); }
+    out
+}
+
+/// bytes dense in lexeme ids
+fn random_bytes(rng: &mut Rng, maxlen: usize) -> Vec<u8> {
+    let n = rng.size(maxlen);
+    let mut v = vec![];
+    while v.len() < n {
+        match rng.below(8) {
+            0..=3 => v.extend_from_slice(&RESERVED[rng.below(13)].to_le_bytes()),
+            4 => v.push(rng.below(256) as u8),
+            5 => { v.extend_from_slice(&(rng.below(6) as u16).to_le_bytes()); }
+            6 => v.extend_from_slice(&[0x03, 0x00, 0x14, 0x00]),
+            _ => v.extend_from_slice(&(rng.next() as u32).to_le_bytes()),
+        }
+    }
+    v.truncate(n.max(0));
+    v
+}
+
+/// a binary document of the shared generator
+pub fn gen_doc_bytes(rng: &mut Rng) -> Vec<u8> {
+    let doc = docgen::gen_doc(rng, &DocCfg::shared());
+    let cfg = BinCfg { key_id_pct: rng.below(101), unquoted_pct: rng.below(101), ints_as: 0 };
+    docgen::render_binary(rng, &cfg, &doc)
+}
+
+/// the three input streams: encoded token sequences, documents, malformed bytes
+pub fn gen_input(g: &mut Gen, max_toks: usize) -> Vec<u8> {
+    match g.rng.below(10) {
+        0..=3 => { g.count("input:token-seq"); let t = gen_token_seq(&mut g.rng, max_toks, false); encode(&t) }
+        4..=6 => { g.count("input:doc"); gen_doc_bytes(&mut g.rng) }
+        7 => { g.count("input:mutated"); let base = if g.rng.chance(1, 2) { gen_doc_bytes(&mut g.rng) } else { let t = gen_token_seq(&mut g.rng, max_toks, false); encode(&t) }; docgen::mutate(&mut g.rng, &base, &[0x00, 0x01, 0x03, 0x04, 0x0c, 0x0e, 0x0f, 0x14, 0x17, 0x43, 0x02, 0x67, 0x9c, 0xff]) }
+        8 => { g.count("input:truncated"); let mut b = gen_doc_bytes(&mut g.rng); let k = g.rng.below(b.len() + 1); b.truncate(k); b }
+        _ => { g.count("input:random"); random_bytes(&mut g.rng, 40) }
+    }
+}
+
+/// capacity words for an input: from exactly the largest token upward, fresh and recycled
+pub fn gen_cap(g: &mut Gen, d: &[u8]) -> String {
+    let m = min_cap(d);
+    let n = match g.rng.below(8) {
+        0 | 1 => m,
+        2 => m + 1,
+        3 => m + g.rng.below(8),
+        4 => d.len().max(m) + 1,
+        5 => (d.len() + 4).max(m) * 2,
+        6 => m + g.rng.below(64),
+        _ => if g.rng.chance(1, 12) { 32 * 1024 } else { m + g.rng.below(16) },
+    };
+    if g.rng.chance(1, 6) { format!("r{}", n) } else { n.to_string() }
+}
+
+fn gen_sched(g: &mut Gen, len: usize) -> Vec<Step> {
+    match g.rng.below(6) {
+        0 => vec![Step::Repeat(1)],
+        1 => { let p = g.rng.range(2, 7); vec![Step::Repeat(p)] }
+        2 => { let a = g.rng.range(1, len.max(1)); vec![Step::Give(a)] }
+        3 => { let a = g.rng.range(1, len.max(1)); let b = g.rng.range(1, len.max(1)); vec![Step::Give(a), Step::Give(b)] }
+        _ => sched::random(&mut g.rng, len),
+    }
+}
+
+/// C08 proper
+pub fn gen_c08(g: &mut Gen) {
+    // 1. every token kind with boundary payloads: write, lex, primitives, peek
+    let mut fixed: Vec<OTok> = vec![OTok::Open, OTok::Close, OTok::Equal, OTok::Bool(true), OTok::Bool(false)];
+    for v in [0u32, 1, 255, 256, 65535, 65536, 0x7fff_ffff, 0x8000_0000, u32::MAX] {
+        fixed.push(OTok::U32(v));
+        fixed.push(OTok::I32(v as i32));
+        fixed.push(OTok::F32(v.to_le_bytes()));
+        fixed.push(OTok::Rgb(v, !v, v ^ 0x55, None));
+        fixed.push(OTok::Rgb(!v, v, 0, Some(v)));
+    }
+    for v in [0u64, 1, u32::MAX as u64, 1 << 32, i64::MAX as u64, 1 << 63, u64::MAX] {
+        fixed.push(OTok::U64(v));
+        fixed.push(OTok::I64(v as i64));
+        fixed.push(OTok::F64(v.to_le_bytes()));
+    }
+    for len in [0usize, 1, 2, 255, 256, 257] {
+        let s: Vec<u8> = (0..len).map(|i| [0x03u8, 0x00, 0x04, 0x00, 0x0f, 0x00, 0x41][i % 7]).collect();
+        fixed.push(OTok::Quoted(s.clone()));
+        fixed.push(OTok::Unquoted(s));
+    }
+    for &r in &RESERVED { fixed.push(OTok::Id(r)); fixed.push(OTok::Id(r + 1)); fixed.push(OTok::Id(r - 1)); }
+    for t in &fixed {
+        let b = encode(std::slice::from_ref(t));
+        g.emit(format!("bwrite {}", t.show()));
+        g.emit(format!("blex {}", hex(&b)));
+        g.emit(format!("blexid {}", hex(&b)));
+        g.emit(format!("bpeek {}", hex(&b)));
+        // every proper prefix of the single token
+        for k in 0..b.len().min(40) { g.emit(format!("blex {}", hex(&b[..k]))); g.emit(format!("bpeek {}", hex(&b[..k]))); }
+    }
+    g.count("fixed-boundary-tokens");
+
+    // 2. all 65536 lexeme ids followed by a payload-looking tail
+    let tail = [0x01u8, 0x00, 0x00, 0x00, 0x03, 0x00, 0x04, 0x00, 0x05, 0x00];
+    for id in 0..=u16::MAX {
+        let mut b = id.to_le_bytes().to_vec();
+        b.extend_from_slice(&tail);
+        g.emit(format!("blex {}", hex(&b)));
+    }
+    g.count("id-sweep-65536");
+    let nid = g.budget(1024, 65536);
+    for i in 0..nid {
+        let id = if nid == 65536 { i as u16 } else { g.rng.next() as u16 };
+        g.emit(format!("bwrite Id:{}", id));
+    }
+
+    // 3. long strings: 65535 (the maximum), and the excluded 65536 / 65537 whose length wraps
+    for len in [65535usize, 65536, 65537] {
+        for quoted in [true, false] {
+            let s: Vec<u8> = (0..len).map(|i| (i * 7 + i / 256) as u8).collect();
+            let t = if quoted { OTok::Quoted(s) } else { OTok::Unquoted(s) };
+            g.emit(format!("bwrite {},Id:9000", t.show()));
+            if len == 65535 {
+                let mut b = encode(&[OTok::Equal, t.clone(), OTok::Id(9000)]);
+                g.emit(format!("blex {}", hex(&b)));
+                for cap in [65539usize, 65540, 70000] {
+                    for s in ["-", "40000", "1,65538,1", "R16384", "2,2,65535"] {
+                        g.emit(format!("bstream {} {} {}", cap, s, hex(&b)));
+                    }
+                }
+                g.emit(format!("bstream 65538 - {}", hex(&b)));
+                g.emit(format!("bstream S - {}", hex(&b)));
+                b.truncate(40000);
+                g.emit(format!("bstream 65539 R9000 {}", hex(&b)));
+                g.emit(format!("blex {}", hex(&b)));
+            }
+        }
+    }
+    g.count("long-strings");
+
+    // 4. inputs of at most 12 bytes: every composition schedule, capacities from the minimum up
+    let n_small = g.budget(60, 1200);
+    for _ in 0..n_small {
+        let mut d = match g.rng.below(3) {
+            0 => { let t = gen_token_seq(&mut g.rng, 5, false); encode(&t) }
+            1 => random_bytes(&mut g.rng, 12),
+            _ => gen_doc_bytes(&mut g.rng),
+        };
+        d.truncate(g.rng.range(0, 12));
+        let m = min_cap(&d);
+        g.emit(format!("blex {}", hex(&d)));
+        for s in sched::compositions(d.len()) {
+            let cap = m + g.rng.below(3);
+            g.emit(format!("bstream {} {} {}", cap, sched::show(&s), hex(&d)));
+        }
+    }
+    g.count("small-all-compositions");
+
+    // 5. generated inputs x schedules x capacities
+    let n = g.budget(2500, 60_000);
+    for _ in 0..n {
+        let d = gen_input(g, 30);
+        let h = hex(&d);
+        g.emit(format!("blex {}", h));
+        if g.rng.chance(1, 3) { g.emit(format!("blexid {}", h)); }
+        for _ in 0..3 {
+            let cap = gen_cap(g, &d);
+            let s = gen_sched(g, d.len());
+            g.emit(format!("bstream {} {} {}", cap, sched::show(&s), h));
+        }
+        if g.rng.chance(1, 4) { g.emit(format!("bstream S - {}", h)); }
+        if g.rng.chance(1, 4) { let cap = gen_cap(g, &d); let s = gen_sched(g, d.len()); g.emit(format!("bread {} {} {}", cap, sched::show(&s), h)); }
+        // 1- and 2-cut schedules at every position for short inputs
+        if d.len() <= 24 && g.rng.chance(1, 4) {
+            let m = min_cap(&d);
+            for a in 1..d.len().max(1) { g.emit(format!("bstream {} {} {}", m, a, h)); }
+        }
+        // buffers that are too small: must be an error, never a different token / clean end
+        if g.rng.chance(1, 6) {
+            let m = min_cap(&d);
+            if m > 1 { let cap = g.rng.range(1, m - 1); let s = gen_sched(g, d.len()); g.emit(format!("bstream {} {} {}", cap, sched::show(&s), h)); }
+        }
+    }
+    g.count("generated-inputs");
+
+    // 6. write -> lex for random token sequences (well-formed and not)
+    let n = g.budget(1500, 40_000);
+    for _ in 0..n {
+        let wf = g.rng.chance(3, 4);
+        let t = gen_token_seq(&mut g.rng, 16, wf);
+        g.emit(format!("bwrite {}", show_toks(&t)));
+    }
+    g.count("write-roundtrip");
+
+    // 7. read_bytes
+    let n = g.budget(300, 6000);
+    for _ in 0..n {
+        let d = random_bytes(&mut g.rng, 40);
+        let mut ns = vec![];
+        let mut left = d.len() + 3;
+        while left > 0 && ns.len() < 6 { let k = g.rng.below(left.min(12) + 1); ns.push(k.to_string()); left -= k.min(left); if g.rng.chance(1, 4) { break; } }
+        let cap = g.rng.range(1, 48);
+        let s = gen_sched(g, d.len());
+        g.emit(format!("breadbytes {} {} {} {}", cap, sched::show(&s), hex(&d), if ns.is_empty() { "-".to_string() } else { ns.join(",") }));
+    }
+
+    // 8. the buffer window hook directly
+    let n = g.budget(1200, 30_000);
+    for _ in 0..n {
+        let len = g.rng.size(40);
+        let d: Vec<u8> = (0..len).map(|_| g.rng.below(256) as u8).collect();
+        let cap = match g.rng.below(8) { 0 => 0, 1 => 1, _ => g.rng.range(1, 24) };
+        let mut steps = gen_sched(g, d.len());
+        if g.rng.chance(1, 3) { let at = g.rng.below(steps.len() + 1); steps.insert(at, if g.rng.chance(1, 4) { Step::FailForever } else { Step::Fail }); }
+        // simulate window length so that advances stay inside it (a larger advance is UB)
+        let mut ops = vec![];
+        let nops = g.rng.range(1, 10);
+        let mut sim = SimBuf { cap, win: 0, src: SchedReader::new(&d, steps.clone()) };
+        for _ in 0..nops {
+            if sim.win > 0 && g.rng.chance(1, 2) { let k = g.rng.range(0, sim.win); sim.win -= k; ops.push(format!("a{}", k)); }
+            else { sim.fill(); ops.push("f".to_string()); }
+        }
+        let cw = if g.rng.chance(1, 5) { format!("r{}", cap) } else { cap.to_string() };
+        g.emit(format!("bufops {} {} {} {}", cw, sched::show(&steps), hex(&d), ops.join(",")));
+    }
+    for d in ["-", "0102", "0102030405060708"] {
+        g.emit(format!("bufops S - {} f,a1,f,a1,f", d));
+        g.emit(format!("bufops S - {} a0,f", d));
+    }
+    g.count("bufops");
+}
+
+/// window-length simulation for the bufops generator (not an oracle: only keeps `a<n>` legal)
+struct SimBuf<'a> { cap: usize, win: usize, src: SchedReader<'a> }
+impl<'a> SimBuf<'a> {
+    fn fill(&mut self) {
+        if self.cap == 0 || self.win >= self.cap { return; }
+        let mut tmp = vec![0u8; self.cap - self.win];
+        if let Ok(n) = self.src.read(&mut tmp) { self.win += n; }
+    }
+}
+
+/// documents whose strings look like brackets, rgb blocks, nested containers (C09 binary part)
+fn gen_skip_input(g: &mut Gen) -> Vec<u8> {
+    match g.rng.below(6) {
+        0 | 1 => gen_doc_bytes(&mut g.rng),
+        2 | 3 => {
+            // nested containers with bracket-looking strings and rgb inside
+            let mut t = vec![OTok::Id(0x2000), OTok::Equal, OTok::Open];
+            let mut depth = 1;
+            let n = g.rng.range(0, 25);
+            for _ in 0..n {
+                match g.rng.below(9) {
+                    0 => { t.push(OTok::Open); depth += 1; }
+                    1 if depth > 1 => { t.push(OTok::Close); depth -= 1; }
+                    2 => t.push(OTok::Quoted(vec![0x03, 0x00, 0x03, 0x00][..g.rng.range(0, 4)].to_vec())),
+                    3 => t.push(OTok::Unquoted(vec![0x04, 0x00, 0x04, 0x00, 0x04][..g.rng.range(0, 5)].to_vec())),
+                    4 => t.push(OTok::Rgb(3, 4, 0x0004_0003, if g.rng.chance(1, 2) { Some(0x0003_0004) } else { None })),
+                    5 => t.push(OTok::U64(0x0004_0004_0004_0004)),
+                    6 => t.push(OTok::F64([0x04, 0x00, 0x04, 0x00, 0x03, 0x00, 0x03, 0x00])),
+                    _ => t.push(gen_tok(&mut g.rng, true)),
+                }
+                match t.last() { Some(OTok::Open) if false => {}, _ => {} }
+            }
+            // recount the depth (gen_tok may have produced brackets)
+            let mut dpt = 0i64;
+            for x in &t { match x { OTok::Open => dpt += 1, OTok::Close => dpt -= 1, _ => {} } }
+            if g.rng.chance(5, 6) { for _ in 0..dpt.max(0) { t.push(OTok::Close); } }
+            if g.rng.chance(1, 2) { t.push(OTok::Id(0xffff)); t.push(OTok::Equal); t.push(OTok::I32(7)); }
+            encode(&t)
+        }
+        4 => { let mut b = gen_skip_doc_prefix(g); let k = g.rng.below(b.len() + 1); b.truncate(k); b }
+        _ => gen_input(g, 30),
+    }
+}
+fn gen_skip_doc_prefix(g: &mut Gen) -> Vec<u8> {
+    let mut b = encode(&[OTok::Id(0x2007), OTok::Equal, OTok::Open, OTok::Quoted(vec![0x04, 0x00]), OTok::Open]);
+    b.extend(gen_doc_bytes(&mut g.rng));
+    b.extend(encode(&[OTok::Close, OTok::Close, OTok::Id(1234)]));
+    b
+}
+
+/// C09 (binary): bskip / blexskip / blexskipv
+pub fn gen_skip(g: &mut Gen) {
+    let n = g.budget(1500, 40_000);
+    for _ in 0..n {
+        let d = gen_skip_input(g);
+        let h = hex(&d);
+        let fr = lex_run(&d);
+        let opens = fr.kinds.iter().filter(|c| **c == b'o').count();
+        let ks: Vec<usize> = if opens == 0 { vec![0] } else { let mut v = vec![0, opens - 1, g.rng.below(opens)]; v.dedup(); if g.rng.chance(1, 8) { v.push(opens); } v };
+        for k in ks {
+            g.emit(format!("blexskip {} {}", h, k));
+            for _ in 0..2 {
+                let cap = gen_cap(g, &d);
+                let s = gen_sched(g, d.len());
+                g.emit(format!("bskip {} {} {} {}", cap, sched::show(&s), h, k));
+            }
+            if g.rng.chance(1, 8) { g.emit(format!("bskip S - {} {}", h, k)); }
+        }
+        if !fr.toks.is_empty() {
+            for _ in 0..2 { let k = g.rng.below(fr.toks.len() + 1); g.emit(format!("blexskipv {} {}", h, k)); }
+        }
+        // short inputs: the skip under every composition schedule
+        if d.len() <= 10 && opens > 0 {
+            let m = min_cap(&d);
+            for s in sched::compositions(d.len()) { g.emit(format!("bskip {} {} {} 0", m, sched::show(&s), h)); }
+        }
+    }
+    g.count("skip");
+}
+
+/// C19 (binary lexer): every prefix of documents and token sequences
+pub fn gen_cut(g: &mut Gen) {
+    let n = g.budget(60, 1500);
+    for _ in 0..n {
+        let d = match g.rng.below(4) { 0 => { let t = gen_token_seq(&mut g.rng, 12, false); encode(&t) } 1 => gen_skip_input(g), _ => gen_doc_bytes(&mut g.rng) };
+        if d.len() > 400 { continue; }
+        let h = hex(&d);
+        for k in 0..=d.len() { g.emit(format!("bcut {} {}", h, k)); }
+    }
+    g.count("cut-every-prefix");
+}
+
+/// C20 (binary reader): F / P at every read-call index, short reads
+pub fn gen_fault(g: &mut Gen) {
+    let n = g.budget(250, 6000);
+    for _ in 0..n {
+        let d = if g.rng.chance(1, 4) { gen_skip_input(g) } else { gen_input(g, 20) };
+        if d.len() > 300 { continue; }
+        let h = hex(&d);
+        let cap = gen_cap(g, &d);
+        let base = match g.rng.below(4) { 0 => vec![Step::Repeat(1)], 1 => vec![], _ => gen_sched(g, d.len()) };
+        // count the read calls of the fault-free run, then put a fault at every call index
+        let capv = match parse_cap(&cap) { Some(c) => cap_value(&c, d.len()), None => continue };
+        let calls = {
+            let sr = Rc::new(RefCell::new(SchedReader::new(&d, base.clone())));
+            let mut rd = TokenReader::builder().buffer_len(capv).build(Shared(sr.clone()));
+            while let Ok(Some(_)) = rd.next() {}
+            let c = sr.borrow().calls;
+            c
+        };
+        let ntoks = lex_run(&d).toks.len();
+        for at in 0..=calls.min(40) {
+            for fault in [Step::Fail, Step::FailForever] {
+                // materialise the first `at` steps of the base schedule, then the fault, then the rest
+                let mut steps = vec![];
+                let mut it = base.iter();
+                let mut rep = None;
+                for _ in 0..at {
+                    match rep.clone().or_else(|| it.next().cloned()) {
+                        Some(Step::Repeat(r)) => { steps.push(Step::Give(r)); rep = Some(Step::Repeat(r)); }
+                        Some(s) => steps.push(s),
+                        None => steps.push(Step::Give(1 << 20)),
+                    }
+                }
+                steps.push(fault.clone());
+                if let Some(r) = rep { steps.push(r); } else { steps.extend(it.cloned()); }
+                let s = sched::show(&steps);
+                g.emit(format!("bstream {} {} {}", cap, s, h));
+                if g.rng.chance(1, 3) { g.emit(format!("bcalls {} {} {} {}", cap, s, h, ntoks + 4)); }
+                if g.rng.chance(1, 6) { g.emit(format!("bskip {} {} {} 0", cap, s, h)); }
+                if g.rng.chance(1, 10) { g.emit(format!("bread {} {} {}", cap, s, h)); }
+            }
+        }
+        // several transient faults in a row and interleaved
+        let s = format!("F,1,F,F,2,F,{}", sched::show(&base).replace('-', "R3"));
+        g.emit(format!("bcalls {} {} {} {}", cap, s, h, ntoks + 8));
+    }
+    g.count("faults-at-every-call");
+}
+
+pub fn gen(g: &mut Gen) {
+    gen_c08(g);
+    gen_skip(g);
+    gen_cut(g);
+    gen_fault(g);
+}
+
 pub fn tables() -> String {
-    String::new()
+    // the 13 lexeme ids as the compiled code has them, in the order of the model's constants,
+    // and the complement of `LexemeId::is_id` measured over all 65536 values
+    let ids: Vec<u64> = [LexemeId::OPEN, LexemeId::CLOSE, LexemeId::EQUAL, LexemeId::U32, LexemeId::U64, LexemeId::I32, LexemeId::BOOL,
+        LexemeId::QUOTED, LexemeId::UNQUOTED, LexemeId::F32, LexemeId::F64, LexemeId::RGB, LexemeId::I64].iter().map(|l| l.0 as u64).collect();
+    let reserved: Vec<u64> = (0..=u16::MAX).filter(|x| !LexemeId::new(*x).is_id()).map(|x| x as u64).collect();
+    let mut s = crate::tables::emit_nat_table("binLexemeIds", "binary lexeme ids OPEN, CLOSE, EQUAL, U32, U64, I32, BOOL, QUOTED, UNQUOTED, F32, F64, RGB, I64 (measured)", &ids);
+    s.push('\n');
+    s.push_str(&crate::tables::emit_nat_table("binReservedIds", "every u16 for which `LexemeId::is_id` is false, ascending (measured over all 65536 values)", &reserved));
+    s.push('\n');
+    s
 }
